@@ -255,8 +255,10 @@ Definition sort_edges (Q : qsorts) (start : Z) (t : tables) : res tables :=
                      Ok (mkES (fst rs) tm (fst (snd rs)) (snd (snd rs))))
                   (combine rest spans);
   let sorted := qs_edge Q recs in
-  (* copy back: metadata_offset restarts at 0 (6937) whatever [start] is *)
-  do r <- copy_back (t_emd t) (map (fun e => (es_off e, es_len e)) sorted) 0 (t_emd t);
+  (* copy back from metadata_offset[start] (6937, after "fix: sort with edge_start > 0 keeps the
+     metadata of the unsorted prefix"; the pinned code restarted at 0: Refuted.v) *)
+  do m0 <- get (t_eoff t) start;
+  do r <- copy_back (t_emd t) (map (fun e => (es_off e, es_len e)) sorted) m0 (t_emd t);
   let off' := firstn s (t_eoff t) ++ snd r ++ skipn (s + length sorted) (t_eoff t) in
   Ok (set_edges t (firstn s edges ++ map es_row sorted) (fst r) off').
 
@@ -269,7 +271,8 @@ Definition sort_migrations (Q : qsorts) (start : Z) (t : tables) : res tables :=
   let recs := map (fun rs : grow * (Z * Z) => mkGS (fst rs) (fst (snd rs)) (snd (snd rs)))
                   (combine rest spans) in
   let sorted := qs_mig Q recs in
-  do r <- copy_back (t_gmd t) (map (fun e => (gs_off e, gs_len e)) sorted) 0 (t_gmd t);
+  do m0 <- get (t_goff t) start;
+  do r <- copy_back (t_gmd t) (map (fun e => (gs_off e, gs_len e)) sorted) m0 (t_gmd t);
   let off' := firstn s (t_goff t) ++ snd r ++ skipn (s + length sorted) (t_goff t) in
   Ok (set_migs t (firstn s migs ++ map gs_row sorted) (fst r) off').
 
